@@ -20,7 +20,9 @@ LEVEL_TEXT = ("Every send() and every received line is followed by a comparison 
               "reference model of the sleep buffer (parked per (node, child, type), last value wins, released exactly "
               "once at that node's wake signal of the active protocol, other nodes untouched, unbuffered/awake sends "
               "byte-identical and immediate). All sequential histories of length <=4 over a 10-symbol alphabet in the "
-              "thorough tier; seeded longer histories beyond.")
+              "thorough tier; seeded longer histories beyond, a quarter of them mixed 'universe' histories (version "
+              "reports, re-entry, restarts, faults in between) and a sixteenth in C09's schedule world (application "
+              "sends while a release is suspended in a write, fault-free).")
 LEVEL_NOTE = ("Trusted: reference model. 'Most recently sent value' is read as most recently parked value since the last "
               "release; a node that re-presents is no longer known to be sleeping (its record is recreated).")
 TECHNIQUE = "deterministic simulation: model-based check of sequential send/wake histories on a simulated transport"
